@@ -49,10 +49,12 @@ def attrName : Attr → String
   | .tr_in_prefix => "transport.in_prefix" | .tr_out_prefix => "transport.out_prefix"
   | .tr_retain => "transport._retain"
 
+def sortStrings (l : List String) : List String := (l.toArray.qsort (· < ·)).toList
+
+/-- `Name[**](consumed keys, sorted)`: named parameters and popped keys alike -/
 def showStage (s : Stage) : String :=
   s.name ++ (if s.varKw then "[**]" else "[]") ++
-    "(" ++ ",".intercalate (s.binds.map fun b => keyName b.1) ++ ")" ++
-    "-{" ++ ",".intercalate (s.pops.map keyName) ++ "}"
+    "(" ++ ",".intercalate (sortStrings ((s.binds.map fun b => keyName b.1) ++ s.pops.map keyName)) ++ ")"
 
 def showChain (d : ClassDesc) : String :=
   ">".intercalate (d.chain.map showStage) ++ " | " ++ ">".intercalate (d.transport.map showStage) ++
